@@ -414,6 +414,41 @@ Definition footer_consistent (z : szone) : bool :=
   | _, None => false
   end.
 
+(* A rule footer is usable when, listing start/end instants year by year, the
+   sequence is strictly increasing and consecutive instants are farther apart
+   than the offset change (so that generated transitions never cross).  By
+   rule_periodic it suffices to look at 401 consecutive years. *)
+Fixpoint rule_seq (r : rule) (Y : Z) (n : nat) : list Z :=
+  match n with
+  | O => []
+  | S k => let a := rule_start r Y in let b := rule_end r Y in
+           (if a <? b then [a; b] else [b; a]) ++ rule_seq r (Y + 1) k
+  end.
+Fixpoint min_gap_ok (l : list Z) (g : Z) : bool :=
+  match l with
+  | a :: ((b :: _) as r) => (g <? b - a) && min_gap_ok r g
+  | _ => true
+  end.
+Definition rule_ok (r : rule) : bool :=
+  let d := Z.abs (fst (fst (r_std r)) - fst (fst (r_dst r))) in
+  min_gap_ok (rule_seq r 2000 402) (2 * d).
+
+(* ... and the first generated instant keeps a two-day distance from the last
+   transition of the file (the seam) *)
+Definition seam_ok (z : szone) (r : rule) : bool :=
+  match rev (a_times (sz_ast z)) with
+  | [] => true
+  | lt :: _ =>
+      forallb (fun c => negb ((lt <? fst c) && (fst c <=? lt + 172800)))
+              (rule_candidates r (year_of_instant lt))
+  end.
+
+Definition footer_rule_ok (z : szone) : bool :=
+  match sz_footer z with
+  | FRule r => rule_ok r && seam_ok z r
+  | _ => true
+  end.
+
 Definition wf_ast (h : header) (a : ast) : bool :=
   let z := szone_of a in
   (1 <=? h_typecnt h) && (h_leapcnt h =? 0)
@@ -421,8 +456,8 @@ Definition wf_ast (h : header) (a : ast) : bool :=
   && ((h_isutcnt h =? 0) || (h_isutcnt h =? h_typecnt h))
   && strictly_increasing (a_times a)
   && forallb (fun t => big_bang <=? t) (a_times a)
-  && forallb (fun t => t <? 2 ^ 60) (a_times a)
+  && forallb (fun t => t <=? 2 ^ 59) (a_times a)
   && forallb (fun i => (0 <=? i) && (i <? h_typecnt h)) (a_idx a)
   && forallb (fun ty => let '(o, _, ai) := ty in (-86400 <? o) && (o <? 86400) && (0 <=? ai) && (ai <? h_charcnt h)) (a_types a)
-  && footer_consistent z
+  && footer_consistent z && footer_rule_ok z
   && gaps_ok z (a_times a).
